@@ -25,6 +25,7 @@ the parameter list and the body's abstract ops; the invocation node the name and
 the argument expressions.
 -/
 import EtkVerif.Asm.Corollaries
+import EtkVerif.Asm.FlattenErrors
 import EtkVerif.Asm.FullTextPest
 import EtkVerif.Asm.FullTextAsm
 namespace EtkVerif.C10
@@ -42,6 +43,59 @@ theorem C10_expansion (rnd : Nat → Nat) (fuel : Nat) (ms : List (String × Mac
     ∃ fuel', Spec.flattenAll rnd fuel' ms k'
           (RawOps.ofList (pre.map RawOp.op ++ body'.map RawOp.op ++ post.toList)) = .ok r :=
   flatten_invocation rnd fuel ms k pre name args post params body body' k' hplain hm hinst r h
+
+/-- "… or fails in the same way", part 1: an invocation that cannot be expanded at all fails with the matching error,
+whatever follows it — unknown instruction macro, wrong number of arguments, or the failure of the instantiation itself
+(a label defined twice in the body) -/
+theorem C10_rejects (rnd : Nat → Nat) (fuel : Nat) (ms : List (String × MacroDef)) (k : Nat)
+    (pre : List AOp) (name : String) (args : List Expr) (post : RawOps)
+    (hplain : ∀ o ∈ pre, match o with | .macro _ _ => False | _ => True) :
+    ((∀ params body, lookupMacro ms name ≠ some (.instr params body)) →
+      Spec.flattenAll rnd (fuel + pre.length + 3) ms k
+        (RawOps.ofList (pre.map RawOp.op ++ RawOp.op (.macro name args) :: post.toList)) =
+        .error (.undeclaredInstructionMacro name)) ∧
+    (∀ params body, lookupMacro ms name = some (.instr params body) → params.length ≠ args.length →
+      Spec.flattenAll rnd (fuel + pre.length + 3) ms k
+        (RawOps.ofList (pre.map RawOp.op ++ RawOp.op (.macro name args) :: post.toList)) =
+        .error (.macroArgumentCount name)) ∧
+    (∀ params body e, lookupMacro ms name = some (.instr params body) → params.length = args.length →
+      instantiate rnd name params body args k = .error e →
+      Spec.flattenAll rnd (fuel + pre.length + 3) ms k
+        (RawOps.ofList (pre.map RawOp.op ++ RawOp.op (.macro name args) :: post.toList)) = .error e) :=
+  flatten_invocation_rejects rnd fuel ms k pre name args post hplain
+
+/-- part 2: when the program with the invocation fails — with anything but the macro recursion limit (the expanded
+program sits one nesting level lower and may get further) or the model's fuel marker — the program with the invocation
+replaced by its instantiated body fails with the SAME error -/
+theorem C10_expansion_error (rnd : Nat → Nat) (fuel : Nat) (ms : List (String × MacroDef)) (k : Nat)
+    (pre : List AOp) (name : String) (args : List Expr) (post : RawOps)
+    (params : List String) (body body' : List AOp) (k' : Nat)
+    (hplain : ∀ o ∈ pre, match o with | .macro _ _ => False | _ => True)
+    (hm : lookupMacro ms name = some (.instr params body))
+    (hinst : instantiate rnd name params body args k = .ok (body', k'))
+    (e : AsmErr) (hrec : ∀ n, e ≠ .macroRecursionLimit n) (hfuel : e ≠ .panic "fuel")
+    (h : Spec.flattenAll rnd fuel ms k
+          (RawOps.ofList (pre.map RawOp.op ++ RawOp.op (.macro name args) :: post.toList)) = .error e) :
+    ∃ fuel', Spec.flattenAll rnd fuel' ms k'
+          (RawOps.ofList (pre.map RawOp.op ++ body'.map RawOp.op ++ post.toList)) = .error e :=
+  flatten_invocation_error rnd fuel ms k pre name args post params body body' k' hplain hm hinst e hrec hfuel h
+
+/-- part 3, the converse of both directions: whatever the EXPANDED program yields — items or an error — the program
+with the invocation yields the same, unless it stops at the recursion limit (255 nested expansions) -/
+theorem C10_expansion_conv (rnd : Nat → Nat) (fuel : Nat) (ms : List (String × MacroDef)) (k : Nat)
+    (pre : List AOp) (name : String) (args : List Expr) (post : RawOps)
+    (params : List String) (body body' : List AOp) (k' : Nat)
+    (hplain : ∀ o ∈ pre, match o with | .macro _ _ => False | _ => True)
+    (hm : lookupMacro ms name = some (.instr params body)) (harity : params.length = args.length)
+    (hinst : instantiate rnd name params body args k = .ok (body', k'))
+    (res : Except AsmErr (List Item × Nat)) (hfuel : res ≠ .error (.panic "fuel"))
+    (h : Spec.flattenAll rnd fuel ms k'
+          (RawOps.ofList (pre.map RawOp.op ++ body'.map RawOp.op ++ post.toList)) = res) :
+    ∃ fuel', Spec.flattenAll rnd fuel' ms k
+          (RawOps.ofList (pre.map RawOp.op ++ RawOp.op (.macro name args) :: post.toList)) = res ∨
+      ∃ n, Spec.flattenAll rnd fuel' ms k
+          (RawOps.ofList (pre.map RawOp.op ++ RawOp.op (.macro name args) :: post.toList)) = .error (.macroRecursionLimit n) :=
+  flatten_invocation_conv rnd fuel ms k pre name args post params body body' k' hplain hm harity hinst res hfuel h
 
 /-- parameters are replaced wherever they occur, by the argument itself -/
 theorem C10_substitution_var (bs : List (String × Expr)) (v : String) (e : Expr) (h : lookupBinding bs v = some e) :
